@@ -15,7 +15,7 @@ def gen(rng):
     jobs = []
     for j in range(rng.choice([4, 8, 14])):
         k = rng.choice(['ok', 'ok', 'ok', 'raise', 'map', 'imap', 'imap_u', 'unpicklable_arg',
-                        'selfkill', 'overlimit'])
+                        'selfkill', 'overlimit', 'termjob'])
         if k == 'overlimit' and not p['pool_hard']:
             k = 'ok'
         jobs.append({'k': k, 'tag': 'J%d' % j, 'dur': rng.choice([0.01, 0.1, 0.3]),
@@ -74,6 +74,8 @@ def run_spec(spec, rec):
             good = oc[0] == 'exc' and oc[1] == 'WorkerLostError' and ('Job: %d' % rj['jid']) in oc[2]
         elif k == 'overlimit':
             good = oc[0] == 'exc' and oc[1] == 'TimeLimitExceeded'
+        elif k == 'termjob':
+            good = oc[0] == 'exc' and oc[1] == 'Terminated'
         if not good:
             rec.violation('job_outcome_not_its_own', a, job_=rj, params=p)
     if obs.get('cache_left'):
